@@ -22,7 +22,12 @@ lines.append("Each sub-agent saw only the text of one property and a scratch "
              "`VERIF_REPO=<patched worktree>`. Round 1 (S1-*) asked for subtle "
              "changes; round 2 (S2-*) additionally required that the defect "
              "only manifests beyond trivial scales (large arrays, many "
-             "chunks / shards, big payloads, long histories).\n")
+             "chunks / shards, big payloads, long histories); round 3 (S3-*) "
+             "required an interaction: a sequence of calls, a combination of "
+             "options, state carried between calls or objects, or a failure "
+             "at one point of a multi-step operation. 60 changes in total; "
+             "the 'caught by' column says when a check had to be "
+             "strengthened first.\n")
 lines.append("| seeded change | breaks | what it needs to manifest | caught by"
              " | first violation reported |")
 lines.append("|---|---|---|---|---|")
